@@ -39,6 +39,7 @@ C16Ok(c) ==
                          ELSE IF f \in Unprotected THEN c.out = "delivered" /\ c.same = 1
                          ELSE c.out # "raised" /\ (c.out = "delivered" => c.same = 1)
     [] c.mut \in {"wrongkey", "truncated", "resized", "otherdst", "othersrc"} -> c.out = "discarded"
+    [] c.mut = "genuine" -> c.out = "delivered" /\ c.same = 1        \* (the frame secured with the key the receiver is configured with now)
     [] OTHER -> FALSE
 C18Ok(c) ==
   CASE c.kind = "plain_in"  -> IF c.keyed = 1 THEN c.out = "discarded" /\ c.keyissue = 1 /\ c.device = 0 /\ c.cb = 0
